@@ -83,6 +83,9 @@ Proof.
     destruct (Nat.eqb_spec (S k) (S m)); [lia|]. destruct (Nat.eqb_spec (S k) 0); [lia|reflexivity].
 Qed.
 
+Lemma halve_ends_factor n w k : halve_ends n w k = halve_ends n (fun _ => 1) k * w k.
+Proof. unfold halve_ends. destruct (k =? 0)%nat; destruct (k =? n - 1)%nat; field. Qed.
+
 (* closed forms of the power sums *)
 Lemma sum_k1 n : rsum n (fun k => INR k) = INR n * (INR n - 1) / 2.
 Proof. induction n as [|n IH]; [simpl; lra|]. change (rsum (S n) (fun k => INR k)) with (rsum n (fun k => INR k) + INR n). rewrite IH, S_INR. lra. Qed.
